@@ -19,7 +19,7 @@ def run(ck):
     sa.run_jobs(ck, jobs, sets=("shapes",))
     c = ck.counters
     c["units_total"] = c.get("handlers_registered", 0) + c.get("jobs_posted", 0)
-    ck.inconclusive += c.get("loop_scenarios_inconclusive", 0) + c.get("pool_scenarios_inconclusive", 0) + c.get("overtake_inconclusive", 0)
+    ck.inconclusive += c.get("loop_scenarios_inconclusive", 0) + c.get("pool_scenarios_inconclusive", 0) + c.get("overtake_inconclusive", 0) + c.get("near_deadline_inconclusive", 0)
     ck.assumptions += [
         "caller contract respected by the workload: at most one pending readable and one pending writeable wait per descriptor; deadline_timer/stream_socket objects are used by one thread at a time (only io_service members are documented thread-safe); "
         "a raw timer id is cancelled by its owner only",
@@ -33,4 +33,4 @@ def run(ck):
               "non-trivial = distinct (reactor, producers, registered handlers) scenario shapes",
               "units_total", "shapes", min_evals=20000,
               required_nonzero=("slot_reuse_scenarios", "outcome_io_cancel_race_success", "outcome_io_cancel_race_canceled", "outcome_timer_fire_success",
-                                "outcome_timer_cancel_far_canceled", "outcome_io_readable_success", "jobs_cancelled", "jobs_ran", "jobs_throwing", "object_scenarios", "loop_scenarios", "pool_scenarios", "overtake_iterations", "yields_taken"))
+                                "outcome_timer_cancel_far_canceled", "outcome_io_readable_success", "jobs_cancelled", "jobs_ran", "jobs_throwing", "object_scenarios", "loop_scenarios", "pool_scenarios", "overtake_iterations", "near_deadline_groups", "yields_taken"))
